@@ -255,6 +255,20 @@ pub fn execute(h: &History, want: &str, rep: &mut Report) -> Option<Violation> {
                     carry *= a_hi;
                     let tol = res + carry;
                     let over = (y - in_max).max(in_min - y);
+                    if !y.is_finite() && m_abs + tol >= f32::MAX as f64 {
+                        // the input range widened by the filter resolution is not representable in f32: the filter
+                        // state overflowed to inf (and is NaN from the next sample on, for good). Its own signature,
+                        // so that any other way of leaving the range is still reported separately
+                        if want == "C13" || want == "ALL" {
+                            fail!("C13", "overflow-near-f32-max", format!("output {:e} after {} samples at |input| up to {:e}: the filter state overflowed (largest input + filter resolution {:e} exceeds f32::MAX) and the output is NaN from the next sample on; time in effect {:?}", y, k, m_abs, tol, cur.map(|c| c.t)), i, Some(k));
+                        }
+                        if want == "C14" {
+                            // nothing further is defined for the step response of an overflowed filter
+                            rep.count("glide.histories_ended_by_overflow_near_f32_max", 1);
+                            rep.evaluations += n_eval;
+                            return None;
+                        }
+                    }
                     if !(over <= tol) {
                         fail!("C13", "range", format!("output {:e} leaves the range [{:e}, {:e}] spanned by 0 and the inputs so far by {:e} (filter resolution {:e}); time in effect {:?}", y, in_min, in_max, over, tol, cur.map(|c| c.t)), i, Some(k));
                     }
@@ -670,6 +684,24 @@ pub fn twin_slow_clamp(ctx: &Ctx, rep: &mut Report) {
     }
 }
 
+/// a hold at (or a few ulps / percent below) +-f32::MAX over the (fs, t) plane, then ordinary levels again
+pub fn largest_finite_histories(small: bool) -> Vec<History> {
+    let mut v = Vec::new();
+    let fss: &[f32] = if small { &[100.0] } else { &[100.0, 1000.0, 8000.0, 48000.0] };
+    let ts: &[f32] = if small { &[0.0, 0.525] } else { &[0.0, 0.01, 0.1, 0.525, 2.0, 10.0] };
+    let levels: &[f32] = if small { &[f32::MAX, 3.3e38] } else { &[f32::MAX, f32::from_bits(f32::MAX.to_bits() - 1), f32::from_bits(f32::MAX.to_bits() - 8), 3.4e38, 3.3e38] };
+    for fs in fss {
+        for t in ts {
+            for (li, l) in levels.iter().enumerate() {
+                let n = (((8.0 * *t as f64 * *fs as f64).ceil() as u64) + 400).min(if small { 600 } else { 200_000 });
+                let x = if li % 2 == 0 { *l } else { -*l };
+                v.push(History { fs: *fs, ops: vec![Op::SetTime(*t), Op::Hold(x, n), Op::Hold(1.0, 50), Op::SetTime(0.0), Op::Hold(0.5, 10)] });
+            }
+        }
+    }
+    v
+}
+
 pub fn run(ctx: &Ctx, prop: &str) -> Report {
     let mut rep = Report::new();
     let small = ctx.tier == Tier::Small;
@@ -763,6 +795,19 @@ pub fn run(ctx: &Ctx, prop: &str) -> Report {
             r.count("glide.full_scale_swing_histories", 1);
         }
         stage("glide.full_scale_swings", r, &mut rep, t0);
+    }
+    if prop == "C13" {
+        // holds at and next to the largest finite f32, then back to ordinary levels (the filter's rounding may carry
+        // the state past f32::MAX there: KNOWN_FINDINGS F11)
+        let t0 = std::time::Instant::now();
+        let hs = largest_finite_histories(small);
+        let r = par_shards(ctx, hs.len(), |j| {
+            let mut rep = Report::new();
+            run_and_record(&hs[j], prop, &mut rep, false);
+            rep.count("glide.largest_finite_input_histories", 1);
+            rep
+        });
+        stage("glide.largest_finite_inputs", r, &mut rep, t0);
     }
     if !small {
         // more than 2^16 set_time calls on one processor (alternating far apart, a few samples in between)
